@@ -905,6 +905,24 @@ impl<'c> Exec<'c> {
             Ok(Ok(())) => {}
         }
         self.sync();
+        // C03: an operation whose last poll returned Pending must have had the
+        // waker of that poll invoked when this Ring::poll consumed the first
+        // completion that makes it ready (multishot: any completion;
+        // otherwise the final one, for a zero-copy send the notification).
+        for i in 0..self.ops.len() {
+            let op = &self.ops[i];
+            if op.fut.is_none() || !op.last_poll_pending || !op.started {
+                continue;
+            }
+            let ready_now = if op.kind == MKind::Accept { op.delivered.len() > delivered_before[i] || (op.final_consumed && !before[i].0) } else { op.final_consumed && !before[i].0 };
+            if ready_now {
+                self.classes.push("completion-while-pending");
+                if op.waker.wakes() <= op.wakes_at_poll {
+                    let kind = op.kind.clone();
+                    self.fail("C03", "completion-not-woken", format!("Ring::poll consumed the completion that makes operation {i} ({kind:?}) ready, but the waker given to its most recent poll was not invoked"));
+                }
+            }
+        }
         for i in 0..self.ops.len() {
             let newly = self.ops[i].delivered.len() - delivered_before[i].min(self.ops[i].delivered.len());
             if newly >= 3 {
